@@ -225,7 +225,7 @@ pub fn run(case: &Value, ctx: &Ctx) -> Outcome {
             // and a full device (ENOSPC); every kind of failure must surface
             if via_stdout && fail_at == 0 {
                 for kind in ["epipe", "enospc"] {
-                    for args in [vec!["view", "-O", fmt, "--precision", "6"], vec!["fold"]] {
+                    for args in [vec!["view", "-O", fmt, "--precision", "6"], vec!["fold"], vec!["stat", "-s", "sum"], vec!["stat", "-s", "sum", "-H"]] {
                         let r = cli::sfs_dead_stdout(ctx, &args, &input, kind);
                         let d = || json!({"name": name, "args": args, "sink": kind, "code": r.code, "stderr": r.stderr.chars().take(300).collect::<String>()});
                         if r.panicked() {
